@@ -346,7 +346,9 @@ func TestC04(t *testing.T) {
 	}
 	snippets = append(snippets, "{% include 'inc.html' %}", "{% for q in x %}{% cycle 'a', 'b' %}{% cycle 'g': '1', '2' %}{% endfor %}", "{% tablerow q in a cols: 2 %}{{ q }}{% endtablerow %}", "{% capture cc %}{{ s }}{% endcapture %}{{ cc }}", "{% case n %}{% when 1 %}one{% else %}other{% endcase %}", "{% raw %}{{ raw }}{% endraw %}{% comment %}c{% endcomment %}", "{% unless b %}u{% endunless %}", "{% assign vv = a | sort %}{{ vv | join }}", "{{ r | map: 'v' | join }}", "{{ dm.a }}{{ dm | size }}",
 		"{% for q in a %}{% assign ff = forloop %}{% endfor %}{{ ff.index }}/{{ ff.length }}", "{% for q in (1..3) %}{% if forloop.first %}{% assign ff = forloop %}{% endif %}{{ ff.index }}{% endfor %}",
-		"{% echo n={{ n }} s={{ s | upcase }} %}", "{% for q in a %}{% echo [{{ q }}] %}{% endfor %}", "{% wrap {{ n }} %}{{ s }}{% echo {{ k }} %}{% endwrap %}", "{% assign zz = n | plus: 1 %}{{ zz }}", "{% capture zc %}{{ n }}{% endcapture %}{{ zc }}")
+		"{% echo n={{ n }} s={{ s | upcase }} %}", "{% for q in a %}{% echo [{{ q }}] %}{% endfor %}", "{% wrap {{ n }} %}{{ s }}{% echo {{ k }} %}{% endwrap %}", "{% assign zz = n | plus: 1 %}{{ zz }}", "{% capture zc %}{{ n }}{% endcapture %}{{ zc }}",
+		// date strings in several layouts (a parser that remembers what matched last would be shared state)
+		"{{ '2017-07-09' | date: '%Y' }}{{ 'July 9, 2017' | date: '%m' }}", "{{ '2017-07-09T10:40:00Z' | date: '%H' }}{{ 'Jul 9 2017' | date: '%d' }}", "{{ '9 July 2017' | date: '%a' }}{{ '2017-07-09 10:40:00 +0100' | date: '%Z' }}")
 	// templates that do not parse: the error path is shared state too
 	broken := []string{"{% else %}", "{% if true %}{% when 1 %}{% endif %}", "{% endif %}", "{% for %}{% endfor %}", "{{ a b }}", "{% nosuchtag %}", "{% if true %}", "{% case 1 %}{% elsif 2 %}{% endcase %}", "{% tablerow x in a %}{% else %}{% endtablerow %}"}
 
